@@ -227,6 +227,11 @@ where
         complete_task(&mut self.index_dump_task, "index_dump_task").await;
 
         let inner = self.inner.clone();
+        #[cfg(pearl_verif)]
+        let task = crate::verif::spawn("dump", async move {
+            inner.try_dump_old_blob_indexes().await
+        });
+        #[cfg(not(pearl_verif))]
         let task = tokio::spawn(async move {
             inner.try_dump_old_blob_indexes().await
         });
@@ -245,6 +250,13 @@ where
 
 
         let inner = self.inner.clone();
+        #[cfg(pearl_verif)]
+        let task = crate::verif::spawn("fsync", async move {
+            if let Err(e) = inner.fsyncdata().await {
+                error!("failed to fsync data in {:?}: {:?}", inner.config().work_dir(), e);
+            }
+        });
+        #[cfg(not(pearl_verif))]
         let task = tokio::spawn(async move {
             if let Err(e) = inner.fsyncdata().await {
                 error!("failed to fsync data in {:?}: {:?}", inner.config().work_dir(), e);
